@@ -46,7 +46,7 @@ theorem inv3_setCtxOne (same restart : Bool) (s : St) (k : Nat) (h : Inv3 s) :
     simp only []
     split
     · exact h
-    · have h1 := inv3_cancel_set s k r { r with cur := none, cancelOf := none } h hk rfl (Or.inl rfl)
+    · have h1 := inv3_cancel_set s k r { r with cur := none, cancelOf := none } h hk rfl (Or.inl ⟨rfl, rfl⟩)
       split
       · exact inv3_startKey _ k false h1
       · exact h1
@@ -57,10 +57,6 @@ theorem inv3_resetKey (s : St) (k : Nat) (h : Inv3 s) : Inv3 (resetKey s k).1 :=
   | none => exact h
   | some r =>
     simp only []
-    have hno : resetTail s (startKey (newRec (cancelOpt s r.gen r.cancelOf) k r.gen) k false) k r.gen =
-        startKey (newRec (cancelOpt s r.gen r.cancelOf) k r.gen) k false := by
-      simp [resetTail, h.k.nn]
-    rw [hno]
     exact inv3_startKey _ k false (inv3_reset s k r h hk)
 
 theorem inv3_restartKey (s : St) (k : Nat) (h : Inv3 s) : Inv3 (restartKey s k).1 := by
@@ -112,7 +108,7 @@ theorem noCtx_setCtxOne (same restart : Bool) (s : St) (k : Nat) (h : NoCtx s) :
         show (cancelOpt s r.gen r.cancelOf).ctx = none
         rw [ctx_cancelOpt]; exact h.ctx
       have h1 : NoCtx (setRec (cancelOpt s r.gen r.cancelOf) k (some { r with cur := none, cancelOf := none })) :=
-        ⟨kinv_setRec _ k r _ (kinv_cancelOpt s r.gen r.cancelOf h.k) (by simpa using hk) rfl (Or.inl rfl),
+        ⟨kinv_setRec _ k r _ (kinv_cancelOpt s r.gen r.cancelOf h.k) (by simpa using hk) rfl (Or.inl ⟨rfl, rfl⟩),
          own_replace s k r _ h.own hk, hctx⟩
       rw [startKey_noCtx _ k false hctx]
       split <;> exact h1
